@@ -59,6 +59,10 @@ def trees():
     out.append(("or", ("and", LEAVES[0], LEAVES[2]), ("xor", LEAVES[13], LEAVES[37])))
     out.append(("xor", ("or", LEAVES[0], LEAVES[32]), ("and", LEAVES[13], LEAVES[2])))
     out.append(("and", ("xor", LEAVES[0], LEAVES[13]), ("or", LEAVES[37], LEAVES[32])))
+    # the always-true *callable* `null` (an ordinary condition, not the null condition) under or / xor / and
+    vn = T.leaf("Value", "null")
+    out += [("or", vn, LEAVES[0]), ("xor", vn, LEAVES[13]), ("xor", LEAVES[0], vn), ("and", vn, LEAVES[2]),
+            ("or", ("xor", vn, LEAVES[0]), LEAVES[13])]
     return out
 
 
@@ -126,10 +130,13 @@ def run_unit(unit, tier):
         # rules with paths of length >= 3 run on the F-deep + F-type documents only
         use = docs if len(rs[ri][1][1]) <= 2 else gen.docs_deep() + gen.docs_type2()
         live = {list: [], dict: {}}
+        rj = joined_rule(rs[ri])
         for di, doc in enumerate(use):
             check_case(res, rs[ri], r, doc, key=(ri, di))
             if r is not None:
                 r = live_step(res, rs[ri], r, live, doc)
+            if rj is not None:
+                rj = check_joined(res, rs[ri], rj, doc)
     res.sample({"rule": rs[unit[0]], "doc": docs[0]})
     return res
 
@@ -141,6 +148,42 @@ def build(res, rt, doc):
         res.violation("build:%s:%s" % (type(e).__name__, cshape(rt[2])), "building %s raised %r" % (T.show(rt), e),
                       {"rule": rt, "doc": doc}, observed=repr(e))
         return None
+
+
+def joined_rule(rt):
+    """The same rule with its path assembled by the `/` operator from two shorter paths (split in the middle)."""
+    from valida.datapath import DataPath
+    from valida.rules import Rule
+    parts = rt[1][1]
+    if len(parts) < 2 or rt[1][2] or rt[1][3]:
+        return None
+    k = len(parts) // 2
+    try:
+        path = DataPath(*[T.build_part(x) for x in parts[:k]]) / DataPath(*[T.build_part(x) for x in parts[k:]])
+        return Rule(path=path, condition=T.build_cond(rt[2]), cast=T.build_cast(rt[3]))
+    except BaseException:
+        return None
+
+
+def check_joined(res, rt, rj, doc):
+    want = ref.rule_test(rt, doc)
+    if not want["exact"]:
+        return rj
+    res.count("transitions")
+    case = {"rule": rt, "doc": doc, "joined": True}
+    try:
+        t = rj.test(fresh(doc))
+        got = (t.is_valid, t.tested, [tuple(f.path) for f in t.failures])
+    except BaseException as e:
+        res.violation("raises:%s:joined-path:%s" % (type(e).__name__, cshape(rt[2])), "%s with its path assembled by `/` raised %r on %r"
+                      % (T.show(rt), e, doc), case, observed=repr(e))
+        return None
+    exp = (want["valid"], want["tested"], [wp for wp, _ in want["failures"]])
+    if got != exp:
+        res.violation("joined-path:%s|%s" % (shape(rt[1]), cshape(rt[2])), "%s with its path assembled by `/` from two shorter paths: "
+                      "wrong verdict / failing paths on %r" % (T.show(rt), doc), case, observed=got, expected=exp)
+        return None
+    return rj
 
 
 def live_step(res, rt, r, live, doc):
@@ -176,6 +219,11 @@ def live_step(res, rt, r, live, doc):
 
 def replay(case):
     res = Result()
+    if case.get("joined"):
+        rj = joined_rule(case["rule"])
+        if rj is not None:
+            check_joined(res, case["rule"], rj, case["doc"])
+        return list(res.violations.values())
     r = build(res, case["rule"], case["doc"])
     if r is not None and case.get("live"):
         live_step(res, case["rule"], r, {list: [], dict: {}}, case["doc"])
